@@ -233,7 +233,6 @@ func (c *checkCtx) registryTask() {
 		"assumed, not checked: sync.RWMutex provides mutual exclusion and the happens-before edges of the Go memory model; one critical section per operation with exclusive writers implies the operation is atomic at its acquisition, hence linearizable w.r.t. the sequential specification; Algorithm() of a service is pure and stable. No interleaving is enumerated.")
 }
 
-
 // registryInit: the package initialiser of codec registers the four built-in services under their names
 // (this is what the assumption registry_default of the frame encoders rests on).
 func (c *checkCtx) registryInit() {
